@@ -269,6 +269,9 @@ case("F63 chunked std of a group of equal values", lambda: groupby_reduce(da.fro
 # F64
 case("F64 empty expected_groups with sort=False", lambda: groupby_reduce(np.arange(4.0), np.array([0, 1, 0, 1]), func="sum", expected_groups=np.array([], dtype=int), sort=False, fill_value=0)[0].tolist(), lambda r: r == [])
 
+# F65
+case("F65 IntervalIndex with gaps", lambda: groupby_reduce(np.ones(12), np.array([0.0, 0.5, 1.0, 1.5, 2.0, 2.5, 3.0, 4.0, 5.0, 5.5, 6.0, 7.0]), expected_groups=pd.IntervalIndex.from_tuples([(0, 1), (2, 3), (5, 6)]), func="count")[0].tolist(), lambda r: r == [2, 2, 2])
+
 bad = 0
 for name, verdict in results:
     print(f"{name:55s} {verdict}")
